@@ -120,7 +120,7 @@ P['C10'] = dict(
     assumptions=_pub_assume[:2] + ['timers fire in deadline order (virtual clock)'],
     jobs=[dict(name='connect_content', tu='harness/w_conn.cpp', entry='h_connect', engine='B', clock=True, defs={'VK_SYMCFG': 1, 'VK_ATTEMPTS': 1, 'VK_BYTES': 6}, reach=['connect-checked', 'connected'], samples=10),
           dict(name='handshake', tu='harness/w_conn.cpp', entry='h_connect', engine='B', clock=True, defs={'VK_SYMCFG': 0}, defs_quick={'VK_ATTEMPTS': 2, 'VK_BYTES': 6}, defs_thorough={'VK_ATTEMPTS': 3, 'VK_BYTES': 8},
-               reach=['connect-checked', 'connect-repeated', 'paused', 'resolve-failed', 'resolve-timeout', 'refused', 'connack-refused', 'malformed-reply', 'silent-broker', 'connected', 'reconnect-after-success'], samples=10),
+               reach=['connect-checked', 'connect-repeated', 'paused', 'resolve-failed', 'resolve-timeout', 'refused', 'connack-refused', 'malformed-reply', 'silent-broker', 'connected', 'reconnect-after-success', 'connack-with-overrides'], samples=10),
           dict(name='backoff', tu='harness/w_conn.cpp', entry='h_backoff', engine='B', clock=True, defs={'VK_SYMCFG': 0, 'VK_ATTEMPTS': 2, 'VK_BYTES': 6}, reach=['saturated'], samples=7),
           dict(name='broker_list', tu='harness/w_conn.cpp', entry='h_brokers', engine='B', clock=True, defs={'VK_SYMCFG': 0, 'VK_ATTEMPTS': 2, 'VK_BYTES': 6}, reach=['two-hosts', 'one-host'], samples=8)])
 
